@@ -267,7 +267,7 @@ def dim_rules(ck, F, E, maxel):
             e = strip_expr(nb.expr(t["discr"]))
             if e[0] == "binop" and e[1] in ("Gt", "Ge", "Le", "Lt"):
                 a, c = strip_expr(e[2]), strip_expr(e[3])
-                if c[0] == "const" and c[1].get("int") in (maxel, maxel + 1) and total is not None and a == total:
+                if c[0] == "const" and c[1].get("int") in (maxel, maxel + 1) and total is not None and _same_value(a, total):
                     ft = bool_switch_true_target(nb, b)
                     if ft is None:
                         continue
@@ -291,6 +291,21 @@ def dim_rules(ck, F, E, maxel):
             pv = strip_expr(nb.expr(p.args[1]))
             for cc in mul_sites(nb):
                 if pv in cc["operands"]:
+                    prod_ok = True
+        if not prod_ok and rv is not None:
+            # iterator form: dimensions = max_indices.iter().map(|m| m.checked_add(1)).collect()?;
+            #                total = dimensions.iter().try_fold(1, |t, &d| t.checked_mul(d))?   -- over that very vector
+            dop = rv["ops"][names.index("dimensions")]
+            dl = dop["place"]["local"] if dop.get("k") in ("copy", "move") and not dop["place"]["proj"] else None
+            dl = _root_local(nb, dl) if dl is not None else None
+            tf = [c for c in nb.calls() if c.callee.split("::")[-1] == "try_fold"]
+            for c in tf:
+                init = strip_expr(nb.expr(c.args[1])) if len(c.args) > 1 else None
+                over_dims = dl is not None and any(_root_local(nb, l_) == dl for l_ in _locals_in(nb.expr(c.args[0], depth=6)))
+                clos = [cb for p_, cb in F.bodies.items() if p_.startswith(nb.path + "::{closure") and
+                        any(x.callee.endswith("checked_mul") for x in cb.calls())]
+                feeds_total = total is not None and any(len(x) > 3 and x[3] is c for x in expr_calls(total))
+                if init is not None and init[0] == "const" and init[1].get("int") == 1 and over_dims and clos and feeds_total:
                     prod_ok = True
         ck.require(prod_ok, "C16:DIM:product-of-pushed-dimensions", "INV-DIM",
                    "each pushed dimension size is a factor of total_elements",
@@ -340,6 +355,57 @@ def dim_rules(ck, F, E, maxel):
                    "get_linear_index lost (or weakened) its `index >= dimension` check: %s" % cmp_ops, gl.span)
 
 
+def _same_value(a, b):
+    """structurally equal, or both the same projection of the result of one and the same call"""
+    if a == b:
+        return True
+    if a[0] == "place" and b[0] == "place" and a[2] == b[2] and isinstance(a[1], tuple) and isinstance(b[1], tuple) and \
+            a[1][0] == "call" and b[1][0] == "call" and len(a[1]) > 3 and len(b[1]) > 3 and a[1][3] is b[1][3]:
+        return True
+    return False
+
+
+def _root_local(body, l, depth=6):
+    """the user variable a temporary was moved / copied / borrowed from"""
+    while depth > 0:
+        d = body.unique_def(l)
+        if d is None or d[0] != "assign":
+            return l
+        rv = d[3]
+        if rv["k"] == "use" and rv["op"].get("k") in ("copy", "move") and not rv["op"]["place"]["proj"]:
+            l = rv["op"]["place"]["local"]
+        elif rv["k"] == "ref" and not rv["place"]["proj"]:
+            l = rv["place"]["local"]
+        else:
+            return l
+        depth -= 1
+    return l
+
+
+def _locals_in(e):
+    out = set()
+    if isinstance(e, tuple):
+        if e and e[0] == "local":
+            out.add(e[1])
+        for x in e[1:]:
+            if isinstance(x, (tuple, list)):
+                out |= _locals_in(x)
+    elif isinstance(e, list):
+        for x in e:
+            out |= _locals_in(x)
+    return out
+
+
+def _mentions_local(e, l):
+    if isinstance(e, tuple):
+        if e and e[0] == "local" and e[1] == l:
+            return True
+        return any(_mentions_local(x, l) for x in e[1:] if isinstance(x, (tuple, list)))
+    if isinstance(e, list):
+        return any(_mentions_local(x, l) for x in e)
+    return False
+
+
 def mul_sites(body):
     out = []
     for b, i, pl, rv, sp in body.assigns():
@@ -353,6 +419,9 @@ def mul_sites(body):
 
 
 # ------------------------------------------------------------------ typing
+_DOLLAR = [set()]
+
+
 def truth_table(body, fn_name):
     """For a fn(value-ish, name) whose body switches on ends_with('$') and on an enum discriminant:
     enumerate paths -> {(dollar, variant): 'Ok'|'Err:<variant>'}"""
@@ -376,7 +445,7 @@ def truth_table(body, fn_name):
                                 variant = n
             else:
                 e = strip_expr(subject)
-                if e[0] == "call" and e[1].endswith("ends_with"):
+                if e[0] == "call" and (e[1].endswith("ends_with") or e[1] in _DOLLAR[0]):
                     ft = bool_switch_true_target(body, b)
                     if ft:
                         dollar = (nxt == ft[1])
@@ -420,6 +489,8 @@ def typing_rules(ck, F, E):
                    "on the same name and value",
                    "Variables::set inserts without a dominating successful suffix validation of the same name/value: "
                    "a string could be stored under a name without `$` (or a number under `$`)", vs.span)
+    from lib import dollar_predicates
+    _DOLLAR[0] = dollar_predicates(F)
     vt = get_fn(ck, F, "Value::validate_type_matches_variable_name")
     if vt is not None:
         tt = truth_table(vt, "validate")
